@@ -27,6 +27,9 @@ def shapes(rnd):
     out.append([("alt", [fbw("--a=", ["foo", "bar"]), fbw("--b=", ["baz", "qux"])])])
     out.append([("alt", [fbw("--a=", ["foo", "ba"]), fbw("--b=", ["ba", "foo"]), fbw("--c=", ["x", "yy", "zzz"]), fbw("--d=", ["zzz", "x", "yy"])])])
     out.append([("seq", [("alt", [("sub", [L("-p"), ("alt", [("fb", [L("1"), L("22")]), L("333")])]), ("sub", [L("-q"), ("alt", [("fb", [L("22"), L("1")]), L("333")])])]), L("z")])])
+    # the same literal text with two different descriptions, expected from different states
+    out.append([("alt", [("seq", [L("a"), L("foo", "one")]), ("seq", [L("b"), L("foo", "two")])])])
+    out.append([("seq", [("alt", [("seq", [L("x"), ("sub", [L("--k="), ("alt", [L("v", "first"), L("w")])])]), ("seq", [L("y"), ("sub", [L("--k="), ("alt", [L("v", "second"), L("w")])])])]), L("end")])])
     # a command inside a word and no command at top level (and the converse)
     out.append([("seq", [("sub", [L("--user="), C("echo alice")]), L("done")])])
     out.append([("seq", [("sub", [L("--k="), ("alt", [L("a"), L("b")])]), C("echo top")])])
